@@ -17,9 +17,9 @@ from . import c12_model as M
 PID = 'C12'
 
 TIERS = {
-    'quick': {'files': 24, 'multiconf': 6, 'f3': 80, 'f5': 40, 'opt_every': 3,
+    'quick': {'files': 24, 'multiconf': 6, 'f3': 80, 'f5': 40, 'f6': 'all', 'opt_every': 3,
               'chunk': 160, 'max_min': 3},
-    'thorough': {'files': 64, 'multiconf': 14, 'f3': 'all', 'f5': 300, 'opt_every': 1,
+    'thorough': {'files': 64, 'multiconf': 14, 'f3': 'all', 'f5': 300, 'f6': 'all', 'opt_every': 1,
                  'chunk': 400, 'max_min': 5},
 }
 OPTION_SETS = ([], ['--protonate-all'], ['-k'])
@@ -58,6 +58,8 @@ def choose_files(wl, tier, cfg):
     second chains, disulfides, ligand fragments and ions first."""
     single, multi = [], []
     for inp in wl['inputs']:
+        if inp['tags'][0] in ('crlf', 'bter'):
+            continue   # non-standard record formatting is not a loss pattern
         recs = M.split_records(inp['text'])
         n = len(M.atom_indices(recs))
         if n < 8 or n > 300:
@@ -120,9 +122,10 @@ def build_jobs(base, wl, tier, cfg, log):
         fid = inp['id']
         census = not M.multi_conformation(recs)
         files[fid] = {'text': inp['text'], 'stem': inp['stem'], 'census': census}
-        faults = M.enumerate_faults(n, tier, rng)
+        faults = M.enumerate_faults(n, tier, rng, M.residue_bounds(recs))
         exhaustive[fid] = {'records': n, 'F1': True, 'F2': True, 'F4': True,
-                           'F3': tier['f3'] == 'all'}
+                           'F3': tier['f3'] == 'all', 'F6': tier['f6'] == 'all',
+                           'F7': tier['f6'] == 'all'}
         for k, fault in enumerate(faults):
             opt_i = 0
             if (k % tier['opt_every']) == 0:
@@ -414,7 +417,9 @@ def main(argv=None):
                          'against propka from the working tree. F1 truncation, F2 single lost record and F4 '
                          'lost head are enumerated at every ATOM/HETATM record boundary of every listed file; '
                          'F3 lost blocks of 2-16 records at every position (all in thorough, seeded sample in '
-                         'quick); F5 two or three independent losses (seeded sample). Cases are distinct by '
+                         'quick); F5 two or three independent losses (seeded sample); F6 every run of consecutive '
+                         'whole residues lost and F7 only a window of consecutive whole residues surviving '
+                         '(every pair of residue boundaries). Cases are distinct by '
                          'sha256(faulted text, options, delivery); a case is trivial if every lost record is one '
                          'the reader ignores anyway (ignorable residue, hydrogen without -k) or nothing is lost.'),
                 'samples': samples,
@@ -430,7 +435,8 @@ def main(argv=None):
                 'files': chosen, 'multi_conformation_files': multis,
                 'per_file_exhaustive': exhaustive,
                 'exhaustive': bool(tier['f3'] == 'all'),
-                'exhaustive_note': ('F1, F2, F4 exhaustive over every record boundary of every listed file'
+                'exhaustive_note': ('F1, F2, F4 exhaustive over every record boundary and F6, F7 over every pair of '
+                                    'residue boundaries of every listed file'
                                     + ('; F3 exhaustive too' if tier['f3'] == 'all' else '; F3 and F5 sampled')),
                 'cases_per_hour': round(agg['cases'] / max(wall, 1e-9) * 3600),
                 'fixed_defect_replays': regress,
